@@ -78,6 +78,9 @@ fn k_fiin_entry_read_utf8_name() {
 fn fiin_entry(i: usize, name: &str) -> FIINEntry {
     let mut dg = vec![0u8; 20];
     for (k, b) in dg.iter_mut().enumerate() { *b = (i * 31 + k * 7 + 1) as u8; }
+    // digests that END in zero bytes are digests too (1 in 256 does): every third entry ends in 00, every fifth in 00 00
+    if i % 3 == 2 { dg[19] = 0; }
+    if i % 5 == 4 { dg[18] = 0; dg[19] = 0; }
     FIINEntry { file_size: (i as i32) * 1_000_003 + 5, file_name: name.to_string(), sha1: dg }
 }
 
@@ -147,7 +150,7 @@ fn native_fiin_new() {
     println!("NATIVE native_fiin_new cases={cases}");
 }
 
-//@unit props=C10 label=B tier=quick native=1 fn=fiin::FileInfo::{write_to_buffer,from_existing} bound="by execution: tables of 0..6 entries; names of 1, 5, 31, 62, 63 and 64 bytes, ASCII and multi-byte UTF-8 (2-, 3- and 4-byte characters)"
+//@unit props=C10 label=B tier=quick native=1 fn=fiin::FileInfo::{write_to_buffer,from_existing} bound="by execution: tables of 0..6 entries; names of 1, 5, 31, 62, 63 and 64 bytes, digests ending in one and two zero bytes; ASCII and multi-byte UTF-8 (2-, 3- and 4-byte characters)"
 //@desc a written table is magic + 16 zero bytes + 1024 + 96*n + 992 zero bytes + n records of 96 bytes (size LE at 0, name at 8 zero-padded to 64, digest at 72 padded to 24) and parses back to the same names, sizes and digests
 #[test]
 fn native_fiin_roundtrip() {
